@@ -515,6 +515,31 @@ Theorem C03_lenient_documents_same_message :
 Proof. exact CodecDecLenient.lenient_document. Qed.
 Print Assumptions C03_lenient_documents_same_message.
 
+(* {"i":"-7","r":["a"]} and {"r":["a"],"r":null,"i":-7}: reordered, a null added, the integer bare *)
+Definition len_props : list property :=
+  [mkProp [105] [6] false false [] (FScalar KInt32); mkProp [114] [2] false false [] (FArray (FScalar KString))].
+Example C03_example_lenient :
+  CodecDecCommute.env_commute var_env = true /\
+  CodecDecReorder.null_members len_props [([114], JNull)] /\
+  Permutation ([([114], JNull)] ++ [([105], JStr [45;55]); ([114], JArr [JStr [97]])])
+              [([114], JArr [JStr [97]]); ([114], JNull); ([105], JStr [45;55])] /\
+  CodecDecLenient.lenient_members no_oracles var_env len_props
+    [([114], JArr [JStr [97]]); ([114], JNull); ([105], JStr [45;55])]
+    [([114], JArr [JStr [97]]); ([114], JNull); ([105], JNum [45;55])] /\
+  lex [123;34;114;34;58;91;34;97;34;93;44;34;114;34;58;110;117;108;108;44;34;105;34;58;45;55;125] = (tokens_of (JObj [([114], JArr [JStr [97]]); ([114], JNull); ([105], JNum [45;55])]) ++ [], false) /\
+  decode_bytes no_oracles var_env [78] [123;34;114;34;58;91;34;97;34;93;44;34;114;34;58;110;117;108;108;44;34;105;34;58;45;55;125] = decode_bytes no_oracles var_env [78] var_doc1.
+Proof.
+  split; [vm_compute; reflexivity|]. split.
+  { constructor; [|constructor]. split; [reflexivity|]. eexists. vm_compute. reflexivity. }
+  split.
+  { cbn [app]. eapply perm_trans; [apply perm_skip; apply perm_swap|apply perm_swap]. }
+  split.
+  { apply CodecDecLenient.LM_same. apply CodecDecLenient.LM_same.
+    eapply CodecDecLenient.LM_member; [reflexivity|reflexivity|split; discriminate| |apply CodecDecLenient.LM_nil].
+    apply CodecDecLenient.L_scalar; [reflexivity|reflexivity|split; discriminate|vm_compute; reflexivity]. }
+  split; vm_compute; reflexivity.
+Qed.
+
 (* the schema condition is the computable check that every correspondence case runs on the real schemas *)
 Theorem C03_lenient_condition_decidable : forall e, CodecDecCommute.env_commute e = true -> CodecDecLenient.env_ok e.
 Proof. exact CodecDecLenient.env_ok_of_check. Qed.
